@@ -656,6 +656,8 @@ func runScenario(sc *scenario, tr *hx.Trace) (units int) {
 					kind = "marker"
 				case strings.HasPrefix(ks, bisyncNS+cpNames[1-i]+":") || strings.HasPrefix(ks, cpNames[1-i]):
 					kind = "own" // bookkeeping of the link that targets this site
+				case ks == config.CheckpointKeyHashKey && (x.Name == "hset" || x.Name == "hdel") && len(x.Args) > 1 && string(x.Args[1]) == runIDs[1-i]:
+					kind = "own" // run id of the link's source -> checkpoint name, written with the checkpoint
 				case reserved(key):
 					kind = "ns" // reserved namespace, but not this link's own bookkeeping
 				default:
